@@ -90,6 +90,15 @@ theorem Refines.livePairs {c : Cache} {s : List Rec} (h : Refines lower c s) (us
   have : (Cache.ops lower).getUnique c u.1 = (Flat.ops lower).getUnique s u.1 := h.getUnique _
   rw [this]
 
+/-- the D24 filter reads the cache through `async_get_unique` only: both stores keep the same withdrawn records -/
+theorem Refines.keptRemoves {c : Cache} {s : List Rec} (h : Refines lower c s) (rs : List Rec) :
+    keptRemoves (Cache.ops lower) c rs = keptRemoves (Flat.ops lower) s rs := by
+  unfold Zc.keptRemoves Zc.keptRemovesWith
+  apply List.filter_congr
+  intro r _
+  have : (Cache.ops lower).getUnique c r = (Flat.ops lower).getUnique s r := h.getUnique _
+  rw [this]
+
 /-- one datagram: both runs raise the same exception, or neither does and all observations agree -/
 theorem Refines.ingest {c : Cache} {s : List Rec} (h : Refines lower c s) (now : Ms) (recs : List Rec) :
     match Zc.ingest lower (Cache.ops lower) c now recs, Zc.ingest lower (Flat.ops lower) s now recs with
@@ -101,14 +110,18 @@ theorem Refines.ingest {c : Cache} {s : List Rec} (h : Refines lower c s) (now :
   rw [ha] at h2
   have h3 := h2.1.addAll (Zc.ingestPre lower (Cache.ops lower) c now recs).otherAdds
   rw [ho] at h3
-  have h4 := h3.1.removeAll (Zc.ingestPre lower (Cache.ops lower) c now recs).removes
-  rw [hr] at h4
+  have hk := h3.1.keptRemoves (Zc.ingestPre lower (Flat.ops lower) s now recs).removes
+  have h4 := h3.1.removeAll (Zc.keptRemoves (Flat.ops lower)
+    (Zc.addAll (Flat.ops lower) (Zc.addAll (Flat.ops lower) (Zc.ingestPre lower (Flat.ops lower) s now recs).cache
+      (Zc.ingestPre lower (Flat.ops lower) s now recs).addrAdds).1 (Zc.ingestPre lower (Flat.ops lower) s now recs).otherAdds).1
+    (Zc.ingestPre lower (Flat.ops lower) s now recs).removes)
   unfold Zc.ingest
-  simp only [ha, ho, hr, hu]
+  simp only [ha, ho, hr, hu, hk]
   generalize Zc.ingestPre lower (Cache.ops lower) c now recs = A at *
   generalize Zc.ingestPre lower (Flat.ops lower) s now recs = B at *
-  cases hA : Zc.removeAll (Cache.ops lower) (Zc.addAll (Cache.ops lower) (Zc.addAll (Cache.ops lower) A.cache B.addrAdds).1 B.otherAdds).1 B.removes <;>
-  cases hB : Zc.removeAll (Flat.ops lower) (Zc.addAll (Flat.ops lower) (Zc.addAll (Flat.ops lower) B.cache B.addrAdds).1 B.otherAdds).1 B.removes <;>
+  generalize Zc.keptRemoves (Flat.ops lower) (Zc.addAll (Flat.ops lower) (Zc.addAll (Flat.ops lower) B.cache B.addrAdds).1 B.otherAdds).1 B.removes = K at *
+  cases hA : Zc.removeAll (Cache.ops lower) (Zc.addAll (Cache.ops lower) (Zc.addAll (Cache.ops lower) A.cache B.addrAdds).1 B.otherAdds).1 K <;>
+  cases hB : Zc.removeAll (Flat.ops lower) (Zc.addAll (Flat.ops lower) (Zc.addAll (Flat.ops lower) B.cache B.addrAdds).1 B.otherAdds).1 K <;>
   simp only [hA, hB] at h4
   · simpa [bind, Except.bind] using h4
   · simp only [bind, Except.bind, pure, Except.pure]
@@ -208,7 +221,10 @@ theorem Flat.WF.ingest {s : List Rec} (h : Flat.WF lower s) (now : Ms) (recs : L
   cases h4 : Zc.removeAll (Flat.ops lower)
       (Zc.addAll (Flat.ops lower) (Zc.addAll (Flat.ops lower) (Zc.ingestPre lower (Flat.ops lower) s now recs).cache
         (Zc.ingestPre lower (Flat.ops lower) s now recs).addrAdds).1 (Zc.ingestPre lower (Flat.ops lower) s now recs).otherAdds).1
-      (Zc.ingestPre lower (Flat.ops lower) s now recs).removes with
+      (Zc.keptRemoves (Flat.ops lower)
+        (Zc.addAll (Flat.ops lower) (Zc.addAll (Flat.ops lower) (Zc.ingestPre lower (Flat.ops lower) s now recs).cache
+          (Zc.ingestPre lower (Flat.ops lower) s now recs).addrAdds).1 (Zc.ingestPre lower (Flat.ops lower) s now recs).otherAdds).1
+        (Zc.ingestPre lower (Flat.ops lower) s now recs).removes) with
   | error e => rw [h4] at ho; cases ho
   | ok s4 =>
     rw [h4] at ho
